@@ -402,7 +402,7 @@ func divisors(n uint32) []uint32 {
 func TestNodeGetters(t *testing.T) {
 	hx.Check(t, hx.N{Quick: 12000, Thorough: 200000}, func(t *rapid.T, c *hx.Case) {
 		type geo struct{ gn, gi, mn, mi uint32 }
-		geos := []geo{{20, 10000, 2, 1000}, {10, 10000, 1, 1000}, {20, 10000, 10, 5000}, {4, 2000, 2, 1000}, {10, 1000, 5, 500}, {6, 3000, 3, 3000}, {1, 1000, 1, 1000}, {20, 10000, 20, 10000}}
+		geos := []geo{{20, 10000, 2, 1000}, {10, 10000, 1, 1000}, {20, 10000, 10, 5000}, {4, 2000, 2, 1000}, {10, 1000, 5, 500}, {6, 3000, 3, 3000}, {1, 1000, 1, 1000}, {20, 10000, 20, 10000}, {5, 10000, 1, 2000}, {10, 20000, 2, 4000}}
 		g := geos[rapid.IntRange(0, len(geos)-1).Draw(t, "geo")]
 		ent := config.NewDefaultConfig()
 		ent.Sentinel.Stat.GlobalStatisticSampleCountTotal = g.gn
@@ -508,6 +508,9 @@ func TestNodeGetters(t *testing.T) {
 			if got, want := int64(node.MaxConcurrency()), evs.Max(model.Conc, now, B, L, 0); got != want {
 				t.Fatalf("t=%d node.MaxConcurrency=%d, reference %d", now, got, want)
 			}
+			if msg := secondItems(node.MetricsOnCondition(func(uint64) bool { return true }), evs, now, B, I); msg != "" {
+				t.Fatalf("t=%d node.MetricsOnCondition: %s", now, msg)
+			}
 			wantMaxAvg := float64(evs.MaxBucket(model.Complete, now, B, L)) * float64(g.mn) / float64(g.mi) * 1000
 			if got := node.GetMaxAvg(base.MetricEventComplete); got != wantMaxAvg {
 				t.Fatalf("t=%d node.GetMaxAvg=%v, reference %v", now, got, wantMaxAvg)
@@ -518,6 +521,66 @@ func TestNodeGetters(t *testing.T) {
 			c.NonTrivial()
 		}
 	})
+}
+
+// secondItems compares per-second metric items with the events recorded inside the array window (bucket length B, array
+// interval I), aggregated by the second their bucket starts in. "" = they agree.
+func secondItems(items []*base.MetricItem, evs model.Events, now, B, I uint64) string {
+	type agg struct{ p, b, cp, e, rt, conc int64 }
+	want := map[uint64]*agg{}
+	for _, e := range evs {
+		if !model.In(e.T, now, B, I) {
+			continue
+		}
+		bs := e.T - e.T%B
+		sec := bs - bs%1000
+		a := want[sec]
+		if a == nil {
+			a = &agg{}
+			want[sec] = a
+		}
+		switch e.Kind {
+		case model.Pass:
+			a.p += e.Amt
+		case model.Block:
+			a.b += e.Amt
+		case model.Complete:
+			a.cp += e.Amt
+		case model.Error:
+			a.e += e.Amt
+		case model.Rt:
+			a.rt += e.Amt
+		case model.Conc:
+			if e.Amt > a.conc {
+				a.conc = e.Amt
+			}
+		}
+	}
+	seen := map[uint64]bool{}
+	for _, it := range items {
+		if seen[it.Timestamp] {
+			return fmt.Sprintf("second %d reported twice", it.Timestamp)
+		}
+		seen[it.Timestamp] = true
+		a := want[it.Timestamp]
+		if a == nil {
+			a = &agg{}
+		}
+		avg := uint64(a.rt)
+		if a.cp > 0 {
+			avg = uint64(a.rt) / uint64(a.cp)
+		}
+		if it.PassQps != uint64(a.p) || it.BlockQps != uint64(a.b) || it.CompleteQps != uint64(a.cp) || it.ErrorQps != uint64(a.e) || it.Concurrency != uint32(a.conc) || it.AvgRt != avg {
+			return fmt.Sprintf("per-second item %d = {pass %d block %d complete %d error %d conc %d avgRt %d}, reference from the events inside the window {%d %d %d %d %d %d}",
+				it.Timestamp, it.PassQps, it.BlockQps, it.CompleteQps, it.ErrorQps, it.Concurrency, it.AvgRt, a.p, a.b, a.cp, a.e, a.conc, avg)
+		}
+	}
+	for sec, a := range want {
+		if !seen[sec] && (a.p|a.b|a.cp|a.e|a.rt|a.conc) != 0 {
+			return fmt.Sprintf("second %d has recorded events inside the window but no per-second item", sec)
+		}
+	}
+	return ""
 }
 
 // ---- plain regression cases for repaired defects (no generator involved) ----
